@@ -219,7 +219,7 @@ class Sym:
         if k == "unop":
             return ("un", rv["op"], self.op(rv["o"], _d))
         if k == "agg":
-            if rv["ak"] == "tuple":
+            if rv["ak"] in ("tuple", "closure"):     # a closure value is the tuple of its captures
                 return ("tuple", tuple(self.op(o, _d) for o in rv["ops"]))
             if rv["ak"] == "adt":
                 return ("adt", norm(rv["adt"]), rv.get("variant"), tuple(self.op(o, _d) for o in rv["ops"]))
